@@ -159,3 +159,25 @@ def well_formed(ids, pids):
 
 def ints(xs):
     return ",".join(str(int(x)) for x in xs) if len(xs) else "_"
+
+
+def all_root0_trees(n: int):
+    """every parent array over n nodes in which node 0 is the only root and every node reaches it (n^(n-2) of them:
+    1, 1, 3, 16, 125, 1296 for n = 1..6) — small-scope exhaustive inputs, any numbering with the root first"""
+    import itertools
+
+    out = []
+    for ps in itertools.product(range(n), repeat=max(0, n - 1)):
+        pids = [-1] + list(ps)
+        ok = True
+        for i in range(1, n):
+            j, k = i, 0
+            while j > 0 and k <= n:
+                j = pids[j]; k += 1
+            if j != 0:
+                ok = False; break
+            if pids[i] == i:
+                ok = False; break
+        if ok:
+            out.append(pids)
+    return out
